@@ -94,22 +94,33 @@ func VerifC08_Migrations() {
 // cover: cloned
 func VerifC08_Clone() {
 	u := func(n int) string { return "00000000-0000-4000-8000-00000000000" + string(rune('0'+n)) }
-	run := func() string {
+	variant := zzverif.Choice("definition", 2)
+	run := func() Flow {
 		zzverif.ResetEnv()
 		// a small definition: two nodes pointing at each other, an action with a
 		// mapped UUID, translations keyed by UUID in two languages
-		f := Flow{"uuid": u(0), "nodes": []any{
-			map[string]any{"uuid": u(1), "actions": []any{map[string]any{"uuid": u(3), "type": "send_msg", "text": "hi"}},
-				"exits": []any{map[string]any{"uuid": u(4), "destination_uuid": u(2)}}},
-			map[string]any{"uuid": u(2), "exits": []any{}}},
-			"localization": map[string]any{"spa": map[string]any{u(3): map[string]any{"text": []any{"hola"}}},
-				"fra": map[string]any{u(4): map[string]any{"text": []any{"salut"}}}}}
+		var f Flow
+		if variant == 0 {
+			f = Flow{"uuid": u(0), "nodes": []any{
+				map[string]any{"uuid": u(1), "actions": []any{map[string]any{"uuid": u(3), "type": "send_msg", "text": "hi"}},
+					"exits": []any{map[string]any{"uuid": u(4), "destination_uuid": u(2)}}},
+				map[string]any{"uuid": u(2), "exits": []any{}}},
+				"localization": map[string]any{"spa": map[string]any{u(3): map[string]any{"text": []any{"hola"}}},
+					"fra": map[string]any{u(4): map[string]any{"text": []any{"salut"}}}}}
+		} else {
+			// objects keyed by two UUIDs that are not in the mapping yet: the translations of a language, the editor's node positions
+			f = Flow{"uuid": u(0), "nodes": []any{map[string]any{"uuid": u(1)}, map[string]any{"uuid": u(2)}},
+				"localization": map[string]any{"spa": map[string]any{u(5): "Rojo", u(4): "Otro"}},
+				"_ui": map[string]any{"nodes": map[string]any{u(1): "a", u(2): "b"}}}
+		}
 		remapUUIDs(f, map[uuids.UUID]uuids.UUID{uuids.UUID(u(3)): uuids.UUID(u(9))})
-		return verifCanon(f)
+		return f
 	}
-	a := run()
+	a := verifCanon(run())
 	zzverif.SymbolicMapOrder(true)
-	b := run()
+	fb := run()
+	zzverif.SymbolicMapOrder(false) // (the rendering below is the harness's own: its ranges are not the subject)
+	b := verifCanon(fb)
 	zzverif.Cover("cloned")
 	zzverif.Assert(a == b, "cloning the same definition twice with the same mapping gave different results")
 }
